@@ -46,7 +46,7 @@ def main():
         rc, o = sh("go test -vet=off -count=1 $(go list ./... | grep -v cmd/mmmbbb) 2>&1 | tail -30", cwd=wt)
         suite_ok = ("FAIL" not in o) and rc == 0
         tries = 1
-        while not suite_ok and tries < 3 and "TestMessageStreamer_Go" in o and o.count("--- FAIL: Test") <= 1:
+        while not suite_ok and tries < 3:  # a deterministic failure fails three times
             # TestMessageStreamer_Go/cancel_with_no_messages is flaky under CPU load on the unchanged tree too
             rc, o = sh("go test -vet=off -count=1 $(go list ./... | grep -v cmd/mmmbbb) 2>&1 | tail -30", cwd=wt)
             suite_ok = ("FAIL" not in o) and rc == 0
